@@ -13,6 +13,124 @@ const NAMES: [&str; 16] = [
     ".hid", ".cfg.json", "end.", "rep.c.c", "bak.tar.gz.tar.gz", "o.o.o.o",
 ];
 
+/// A target outside the directory that holds the state: the first command is
+/// given in `pr/app/` (so that is the base and holds `.redo`), and the script
+/// of `pr/app/x` asks for `../lib/<name>`, whose recorded name starts with
+/// `..`.  Its candidates are those of `pr/lib/`, of `pr/` and of the root (two
+/// levels above the base); rules lying in `pr/app/` (a sibling of the target's
+/// directory) are decoys.
+fn outside_base_case(rng: &mut Rng, seed: u64) -> Case {
+    let name = rng.pick(&NAMES).to_string();
+    let target = format!("pr/lib/{}", name);
+    let cands = candidates(&target);
+    let mut idx: Vec<usize> = (0..cands.len()).collect();
+    rng.shuffle(&mut idx);
+    let n_exist = rng.range(1, 3.min(idx.len() as u64)) as usize;
+    let mut exist: Vec<usize> = idx[..n_exist].to_vec();
+    exist.sort();
+    let mk_rule = |rng: &mut Rng, c: &Candidate, ver: u32| -> Rule {
+        let mut stmts = vec![Stmt::IfChange(vec![rel_to("s0", &c.do_dir)])];
+        if rng.chance(1, 3) {
+            stmts.insert(0, Stmt::Out { mode: OutMode::File, pad: 0 });
+        }
+        Rule { version: ver, stmts }
+    };
+    let mut rules = Vec::new();
+    for (k, i) in exist.iter().enumerate() {
+        rules.push((cands[*i].do_path.clone(), mk_rule(rng, &cands[*i], k as u32)));
+    }
+    // decoys: what the candidates would be called if `app` were an ancestor
+    let decoys: Vec<String> = candidates(&format!("pr/app/{}", name))
+        .into_iter()
+        .filter(|c| c.do_dir == "pr/app" && c.do_path != format!("pr/app/{}.do", name))
+        .map(|c| c.do_path)
+        .collect();
+    let mut have_decoy = false;
+    for d in &decoys {
+        if rng.chance(1, 2) {
+            have_decoy = true;
+            rules.push((
+                d.clone(),
+                Rule {
+                    version: 90,
+                    stmts: vec![Stmt::IfChange(vec!["../../s0".into()])],
+                },
+            ));
+        }
+    }
+    if !have_decoy {
+        rules.push((
+            "pr/app/default.do".into(),
+            Rule {
+                version: 90,
+                stmts: vec![Stmt::IfChange(vec!["../../s0".into()])],
+            },
+        ));
+    }
+    rules.push((
+        "pr/app/x.do".into(),
+        Rule {
+            version: 0,
+            stmts: vec![Stmt::IfChange(vec![format!("../lib/{}", name)])],
+        },
+    ));
+    let mut sc = Scenario {
+        family: "c13-outside-base".into(),
+        dirs: vec!["pr".into(), "pr/app".into(), "pr/lib".into()],
+        symlinks: Vec::new(),
+        files: vec![("s0".to_string(), source_content("s0", 0)), ("zz".into(), b"z\n".to_vec())],
+        rules,
+        history: Vec::new(),
+    };
+    let build = |rng: &mut Rng, prog: &str| -> Cmd {
+        let mut c = redo_cmd(rng, prog, &["x".to_string()], 3, 150);
+        c.cwd = "pr/app".into();
+        c
+    };
+    let p0 = if rng.chance(1, 2) { "redo" } else { "redo-ifchange" };
+    sc.history.push(Step::Cmds(vec![build(rng, p0)]));
+    let mut exist_now = exist.clone();
+    let mut ver = 10;
+    for _ in 0..rng.range(1, 3) {
+        let chosen = exist_now[0];
+        if chosen > 0 && rng.chance(1, 2) {
+            let j = rng.below(chosen as u64) as usize;
+            ver += 1;
+            sc.history.push(Step::SetRule {
+                path: cands[j].do_path.clone(),
+                rule: Some(mk_rule(rng, &cands[j], ver)),
+            });
+            exist_now.insert(0, j);
+            exist_now.sort();
+        } else if exist_now.len() > 1 {
+            sc.history.push(Step::SetRule {
+                path: cands[chosen].do_path.clone(),
+                rule: None,
+            });
+            exist_now.remove(0);
+        } else if let Some(j) = (chosen + 1..cands.len()).find(|j| !exist_now.contains(j)) {
+            ver += 1;
+            sc.history.push(Step::SetRule {
+                path: cands[j].do_path.clone(),
+                rule: Some(mk_rule(rng, &cands[j], ver)),
+            });
+            exist_now.push(j);
+            exist_now.sort();
+        }
+        sc.history.push(Step::Cmds(vec![build(rng, "redo-ifchange")]));
+    }
+    let mut meta = BTreeMap::new();
+    meta.insert("target".into(), serde_json::json!(target));
+    Case {
+        property: "C13".into(),
+        seed,
+        scenario: sc,
+        knobs: Knobs::draw(rng),
+        opts: PlayOpts::default(),
+        meta,
+    }
+}
+
 impl Property for C13 {
     fn id(&self) -> &'static str {
         "C13"
@@ -24,12 +142,15 @@ impl Property for C13 {
         }
     }
     fn rule(&self) -> &'static str {
-        "targets at depth 0-3 (in a third of the deep cases the last directories do not exist yet and are \
+        "four scenarios in five: targets at depth 0-3 (in a third of the deep cases the last directories do not exist yet and are \
          created by the rule) whose names have zero to three dots (also leading and trailing ones, and repeated extensions), spaces and non-ASCII letters, given \
          with redundant separators and .. detours; 1-4 candidate scripts placed at random positions of \
          the reference candidate list (name.do, default.<ext>.do longest extension first, default.do, in \
          the target's directory then each ancestor up to the project root); history: build, then add a \
-         higher-priority candidate or remove the chosen one, then redo-ifchange, at -j1..3; oracle: the \
+         higher-priority candidate or remove the chosen one, then redo-ifchange, at -j1..3; one in five: \
+         the state directory lies in pr/app/ (first command given there) and the script of pr/app/x asks for \
+         ../lib/<name>, a target outside the base whose candidates lie in pr/lib/, pr/ and the root, with \
+         decoy rules in pr/app/; oracle: the \
          script that runs, its working directory, $1, $2 and the directory of $3 equal the reference \
          (independent implementation), target bytes equal the from-scratch evaluator after every step \
          (so a changed choice forces a rebuild), redo-whichdo prints exactly the reference candidates up \
@@ -43,7 +164,10 @@ impl Property for C13 {
             .iter()
             .any(|g| g.events.iter().any(|e| e.text.starts_with("do-begin")))
     }
-    fn generate(&self, rng: &mut Rng, seed: u64, _tier: Tier, _index: u64) -> Case {
+    fn generate(&self, rng: &mut Rng, seed: u64, _tier: Tier, index: u64) -> Case {
+        if index % 5 == 4 {
+            return outside_base_case(rng, seed);
+        }
         let depth = rng.below(4) as usize;
         let dir_names = ["da", "db.x", "d c"];
         let mut dir = String::new();
@@ -243,7 +367,11 @@ impl Property for C13 {
                     }
                 }
             }
-            v.extend(freshness(rec, g.step_idx, &[target.clone()]));
+            let mut ts = vec![target.clone()];
+            if case.scenario.family == "c13-outside-base" {
+                ts.push("pr/app/x".into());
+            }
+            v.extend(freshness(rec, g.step_idx, &ts));
         }
         v
     }
